@@ -653,6 +653,26 @@ pub fn c05(ctx: &mut Ctx, tier: &str, seed: u64) {
             if eq && ha != hb {
                 ctx.fail("eq-implies-same-hasher-input", None, format!("hash {} {}", e, hex(a)), format!("other {}: {:?} vs {:?}", hex(b), ha, hb));
             }
+            // the component iterators carry their own Eq / PartialOrd / Ord impls (the path impls call
+            // them): all three must tell the same story (fresh iterators: a partly consumed one compares its
+            // remaining BYTES re-read as a path, which is outside this property)
+            {
+                macro_rules! iter_cmp {
+                    ($ia:expr, $ib:expr) => {{
+                        let (ia, ib) = ($ia, $ib);
+                        let ok = (ia == ib) == eq && Ord::cmp(&ia, &ib) == ord && PartialOrd::partial_cmp(&ia, &ib) == Some(ord)
+                            && Ord::cmp(&ib, &ia) == ord.reverse();
+                        ok
+                    }};
+                }
+                let mut ok = if win { iter_cmp!(WindowsPath::new(a).components(), WindowsPath::new(b).components()) } else { iter_cmp!(UnixPath::new(a).components(), UnixPath::new(b).components()) };
+                if let (Ok(sa), Ok(sb)) = (std::str::from_utf8(a), std::str::from_utf8(b)) {
+                    ok = ok && if win { iter_cmp!(Utf8WindowsPath::new(sa).components(), Utf8WindowsPath::new(sb).components()) } else { iter_cmp!(Utf8UnixPath::new(sa).components(), Utf8UnixPath::new(sb).components()) };
+                }
+                if !ok {
+                    ctx.fail("component-iterator-cmp-agrees", None, rp.clone(), String::new());
+                }
+            }
             // owned / typed / UTF-8 / mixed impls agree
             let (beq, bord, bh) = if win {
                 let (x, y) = (WindowsPathBuf::from(a.as_slice()), WindowsPathBuf::from(b.as_slice()));
